@@ -289,7 +289,7 @@ pub fn h_c20_three_ways() {
     let nbefore = sym::choose("before", 3);
     let nafter = sym::choose("after", 3);
     let order = sym::choose("order", 4);
-    // abstract document: [before...] <a xmlns:p="urn:1" x="v1">t1<p:b/><!--c1--></a> [after...]
+    // abstract document: [before...] <a xmlns:p="urn:1" xmlns:q="urn:2" x="v1">t1<p:b/><!--c1--></a> [after...]
     let mk_misc = |k: usize| -> fixed::DocumentContent {
         if k == 0 {
             fixed::DocumentContent::Comment("m".to_string())
@@ -303,7 +303,10 @@ pub fn h_c20_three_ways() {
         before,
         document_element: fixed::Element {
             name: fixed::Name { localname: "a".to_string(), namespace: "".to_string() },
-            prefixes: vec![fixed::Prefix { name: "p".to_string(), namespace: "urn:1".to_string() }],
+            prefixes: vec![
+                fixed::Prefix { name: "p".to_string(), namespace: "urn:1".to_string() },
+                fixed::Prefix { name: "q".to_string(), namespace: "urn:2".to_string() },
+            ],
             attributes: vec![(fixed::Name { localname: "x".to_string(), namespace: "".to_string() }, v1.clone())],
             children: vec![
                 fixed::Content::Text(format!("{}z", t1)),
@@ -322,6 +325,8 @@ pub fn h_c20_three_ways() {
     // stepwise
     let ns = xot.add_namespace("urn:1");
     let p = xot.add_prefix("p");
+    let ns2 = xot.add_namespace("urn:2");
+    let q = xot.add_prefix("q");
     let (na, nx, npi) = (xot.add_name("a"), xot.add_name("x"), xot.add_name("pi"));
     let nb = xot.add_name_ns("b", ns);
     let d2;
@@ -342,6 +347,7 @@ pub fn h_c20_three_ways() {
                 xot.insert_before(a, m).unwrap();
             }
             xot.set_namespace(a, p, ns);
+            xot.set_namespace(a, q, ns2);
             xot.set_attribute(a, nx, v1.clone());
             xot.append_text(a, &format!("{}z", t1)).unwrap();
             let b = xot.new_element(nb);
@@ -361,6 +367,7 @@ pub fn h_c20_three_ways() {
                 xot.insert_before(a, m).unwrap();
             }
             xot.set_namespace(a, p, ns);
+            xot.set_namespace(a, q, ns2);
             xot.set_attribute(a, nx, v1.clone());
             xot.append_text(a, &t1).unwrap();
             let b = xot.new_element(nb);
@@ -384,6 +391,7 @@ pub fn h_c20_three_ways() {
             xot.append(a, c).unwrap();
             xot.set_attribute(a, nx, v1.clone());
             xot.set_namespace(a, p, ns);
+            xot.set_namespace(a, q, ns2);
             d2 = xot.new_document();
             for k in 0..nbefore {
                 let m = misc(&mut xot, k);
@@ -400,6 +408,7 @@ pub fn h_c20_three_ways() {
             let a = xot.new_element(na);
             d2 = xot.new_document_with_element(a).unwrap();
             xot.set_namespace(a, p, ns);
+            xot.set_namespace(a, q, ns2);
             xot.set_attribute(a, nx, v1.clone());
             let c = xot.new_comment(&c1);
             xot.prepend(a, c).unwrap();
